@@ -8,5 +8,6 @@ Extraction "n2model.ml" canon_impl canon sem ends_dirlike normal_form uses_only 
   truncate task_message task_message_pinned progress_bar mkCounts utf8_ok
   extract_showincludes extract_showincludes_pinned find_last_line decode_status
   load_manifest remove_duplicates evaluate parser_read
+  replay load_state hash_build siphash13 manifest_stream
   db_open write_build loaded_for signature
   run_phase run_phase_main select_targets bs_new want_targets accepts first_rejected get_state.
